@@ -13,6 +13,21 @@ NOTE = ('Trusted base: rustc nightly MIR/HIR of the type-checked program at -Zmi
         'check, not a proof of the behavioural property; see coverage.not_decided in the evidence.')
 
 CLAIMS = {
+    'C01': dict(
+        technique='result-discipline dataflow over Reach(verify) (MIR), transitive must-pass-through chains with verdict '
+                  'propagation per layout, guard extraction against a frozen guard table, HIR index-range agreement',
+        text='Decides the structural necessary conditions the statement enumerates: OODS length coupling guard, FRI input '
+             'size tied to the evaluation domain, blow-up exponent bounds, no dropped/swallowed Result in Reach(verify), every '
+             'verification step on every accepting path with its verdict propagated, OODS equation operands. Soundness proper '
+             '(that these checks force a satisfying trace) is not decided.',
+        ref='4 C01'),
+    'C11': dict(
+        technique='guard extraction (MIR comparison + branch classification, callees inlined by summary substitution) compared '
+                  'both ways with a frozen guard table',
+        text='Decides presence, operands (leaf sets), constants (by value) and relation of every conjunct of the statement on '
+             'every accepting path of StarkConfig::validate, and that no other rejecting condition on a config field exists '
+             '("exactly"). Residual assumption: Felt ordering compares canonical integers.',
+        ref='4 C11'),
     'C06': dict(
         technique='literal tables vs integer oracle; def-use expression reconstruction of fri_formula{2,4,8,16} '
                   'interpreted in a polynomial abstract domain and compared with the fold specification as a '
